@@ -1,6 +1,7 @@
 // Unit U11 lef_import: layout21raw::lef::LefImporter coordinate conversion (C16).
 use vstd::prelude::*;
 use std::convert::{TryFrom, TryInto};
+use vstd::std_specs::hash::*;
 verus! {
 global size_of usize == 8;
 //@ include units/common/float.inc.rs
@@ -38,8 +39,29 @@ pub mod lef21 {
     }
     #[derive(Clone, Copy, Debug)]
     pub struct LefPoint { pub x: LefDecimal, pub y: LefDecimal }
-    /// only the field the extracted code reads
-    pub struct LefLayerGeometries { pub width: Option<LefDecimal> }
+    impl LefDecimal { pub const ZERO: LefDecimal = LefDecimal { m: 0, s: 0 }; }
+    /// opaque: masks and vias are not imported
+    pub struct LefMask { }
+    pub struct LefVia { }
+    pub struct LefPortClass { }
+//@ item lef21/src/data.rs :: struct LefStepPattern
+//@ end
+//@ item lef21/src/data.rs :: enum LefShape
+//@ end
+//@ item lef21/src/data.rs :: enum LefGeometry
+//@ end
+//@ item lef21/src/data.rs :: enum LefLayerSpacing
+//@ end
+//@ item lef21/src/data.rs :: struct LefLayerGeometries
+//@ end
+//@ item lef21/src/data.rs :: struct LefPort
+//@ end
+    /// R5: LefPin / LefMacro reduced to the fields the importer reads
+    pub struct LefPin { pub name: String, pub ports: Vec<LefPort> }
+    pub struct LefMacro { pub name: String, pub pins: Vec<LefPin>, pub obs: Vec<LefLayerGeometries>, pub size: Option<(LefDecimal, LefDecimal)> }
+    impl LefPoint {
+        pub fn new(x: LefDecimal, y: LefDecimal) -> (r: LefPoint) ensures r.x == x, r.y == y { LefPoint { x, y } }
+    }
     /// opaque: import_units ignores its argument
     pub struct LefUnits { }
 }
@@ -148,7 +170,243 @@ proof fn lemma_trailing_zero_irrelevant(m: int, s: nat, scale: int)
     }
 }
 
+// ---- shapes, per-layer geometry lists (C16: "macro to abstract, pin to port, obstruction to blockage") ----
+/// model of slotmap's LayerKey: an opaque copyable key
+#[derive(Debug, Clone, Copy)]
+pub struct LayerKey { pub id: u64 }
+/// the key the shared layer table holds (or creates) for a layer name: one key per name — assumption (import_layer is modelled, see below)
+pub uninterp spec fn key_of(name: Seq<char>) -> LayerKey;
+pub open spec fn dec_eq(a: lef21::LefDecimal, b: lef21::LefDecimal) -> bool { a.m * pow10(b.s as nat) == b.m * pow10(a.s as nat) }
+// model of #[derive(PartialEq)] on LefLayerSpacing: same variant and equal decimal values
+impl vstd::std_specs::cmp::PartialEqSpecImpl for lef21::LefLayerSpacing {
+    open spec fn obeys_eq_spec() -> bool { true }
+    open spec fn eq_spec(&self, other: &Self) -> bool {
+        match (*self, *other) {
+            (lef21::LefLayerSpacing::Spacing(a), lef21::LefLayerSpacing::Spacing(b)) => dec_eq(a, b),
+            (lef21::LefLayerSpacing::DesignRuleWidth(a), lef21::LefLayerSpacing::DesignRuleWidth(b)) => dec_eq(a, b),
+            _ => false,
+        }
+    }
+}
+impl PartialEq for lef21::LefLayerSpacing { #[verifier::external_body] fn eq(&self, other: &Self) -> bool { unimplemented!() } }
+pub open spec fn pts_dec_ok(pts: Seq<lef21::LefPoint>, scale: int) -> bool { forall|i: int| 0 <= i < pts.len() ==> pt_dec_ok(#[trigger] pts[i], scale) }
+/// the LEF shape's numbers are within the decimal model's exact range
+pub open spec fn shape_dec_ok(l: lef21::LefShape, layer: lef21::LefLayerGeometries, scale: int) -> bool {
+    match l {
+        lef21::LefShape::Rect(_, p0, p1) => pt_dec_ok(p0, scale) && pt_dec_ok(p1, scale),
+        lef21::LefShape::Polygon(_, pts) => pts_dec_ok(pts@, scale),
+        lef21::LefShape::Path(_, pts) => pts_dec_ok(pts@, scale) && (layer.width is Some ==> dec_ok(layer.width->0, scale)),
+    }
+}
+pub open spec fn pts_are(v: Seq<Point>, pts: Seq<lef21::LefPoint>, scale: int) -> bool {
+    v.len() == pts.len() && forall|i: int| 0 <= i < pts.len() ==> pt_ok(#[trigger] pts[i], scale) && v[i] == pt_val(pts[i], scale)
+}
+/// `s` is the raw image of LEF shape `l`: same kind, every coordinate scaled exactly, same order and count, path width from the layer
+pub open spec fn shape_is(s: Shape, l: lef21::LefShape, layer: lef21::LefLayerGeometries, scale: int) -> bool {
+    match l {
+        lef21::LefShape::Rect(_, p0, p1) => pt_ok(p0, scale) && pt_ok(p1, scale) && s == Shape::Rect(Rect { p0: pt_val(p0, scale), p1: pt_val(p1, scale) }),
+        lef21::LefShape::Polygon(_, pts) => s is Polygon && pts_are(s->Polygon_0.points@, pts@, scale),
+        lef21::LefShape::Path(_, pts) => s is Path && pts_are(s->Path_0.points@, pts@, scale) && layer.width is Some
+            && dist_ok(layer.width->0, scale) && s->Path_0.width as int == dist_val(layer.width->0, scale),
+    }
+}
+pub open spec fn geom_dec_ok(g: lef21::LefGeometry, layer: lef21::LefLayerGeometries, scale: int) -> bool { g is Shape ==> shape_dec_ok(g->Shape_0, layer, scale) }
+pub open spec fn geoms_dec_ok(layer: lef21::LefLayerGeometries, scale: int) -> bool { forall|i: int| 0 <= i < layer.geometries@.len() ==> geom_dec_ok(#[trigger] layer.geometries@[i], layer, scale) }
+/// `shapes` are the images of the layer's geometries, one for one, in order
+pub open spec fn shapes_are(shapes: Seq<Shape>, layer: lef21::LefLayerGeometries, n: int, scale: int) -> bool {
+    shapes.len() == n && forall|i: int| 0 <= i < n ==> (#[trigger] layer.geometries@[i]) is Shape && shape_is(shapes[i], layer.geometries@[i]->Shape_0, layer, scale)
+}
+/// the layer-geometries record uses only supported features
+pub open spec fn geoms_supported(layer: lef21::LefLayerGeometries) -> bool {
+    layer.except_pg_net is None && (layer.spacing is Some ==> layer.spacing->0 is Spacing && layer.spacing->0->Spacing_0.m == 0)
+}
+
+// ---- per-layer shape maps ----
+use std::collections::HashMap;
+/// R6: the HashMap entry idiom  `match m.entry(k) { Occupied(mut e) => e.get_mut().extend(v), Vacant(e) => { e.insert(v); } }`:
+/// the key's list is extended by `v` (created if absent); every other key untouched
+#[verifier::external_body]
+pub fn vp_entry_extend(m: &mut HashMap<LayerKey, Vec<Shape>>, k: LayerKey, v: Vec<Shape>)
+    ensures lists(final(m)@) == merge1(lists(old(m)@), k, v@),
+{ unimplemented!() }
+/// the map's lists as sequences
+pub open spec fn lists(m: Map<LayerKey, Vec<Shape>>) -> Map<LayerKey, Seq<Shape>> { Map::new(m.dom(), |k: LayerKey| m[k]@) }
+pub open spec fn merge1(m: Map<LayerKey, Seq<Shape>>, k: LayerKey, v: Seq<Shape>) -> Map<LayerKey, Seq<Shape>> {
+    m.insert(k, if m.dom().contains(k) { m[k] + v } else { v })
+}
+/// per-layer merge of a list of (layer key, shapes) items, in order: what pins' ports and macro obstructions fold to
+pub open spec fn merged(items: Seq<(LayerKey, Seq<Shape>)>) -> Map<LayerKey, Seq<Shape>> decreases items.len() {
+    if items.len() == 0 { Map::empty() } else { merge1(merged(items.drop_last()), items.last().0, items.last().1) }
+}
+/// `item` is the image of one LEF layer-geometries record
+pub open spec fn item_is(item: (LayerKey, Seq<Shape>), g: lef21::LefLayerGeometries, scale: int) -> bool {
+    geoms_supported(g) && item.0 == key_of(g.layer_name@) && shapes_are(item.1, g, g.geometries@.len() as int, scale)
+}
+pub open spec fn items_are(items: Seq<(LayerKey, Seq<Shape>)>, gs: Seq<lef21::LefLayerGeometries>, scale: int) -> bool {
+    items.len() == gs.len() && forall|i: int| 0 <= i < gs.len() ==> item_is(#[trigger] items[i], gs[i], scale)
+}
+pub open spec fn port_dec_ok(p: lef21::LefPort, scale: int) -> bool { forall|j: int| 0 <= j < p.layers@.len() ==> geoms_dec_ok(#[trigger] p.layers@[j], scale) }
+pub open spec fn pin_dec_ok(p: lef21::LefPin, scale: int) -> bool { forall|i: int| 0 <= i < p.ports@.len() ==> port_dec_ok(#[trigger] p.ports@[i], scale) }
+/// all layer-geometries records of a pin, port after port
+pub open spec fn pin_geoms(ports: Seq<lef21::LefPort>) -> Seq<lef21::LefLayerGeometries> decreases ports.len() {
+    if ports.len() == 0 { Seq::empty() } else { pin_geoms(ports.drop_last()) + ports.last().layers@ }
+}
+//@ item layout21raw/src/data.rs :: struct AbstractPort
+//@ end
+//@ item layout21raw/src/data.rs :: struct Abstract
+//@ end
+impl AbstractPort {
+    /// model of AbstractPort::new(impl Into<String>): the name, no shapes
+    #[verifier::external_body]
+    pub fn new(net: &String) -> (r: Self) ensures r.net@ == net@, r.shapes@ == Map::<LayerKey, Vec<Shape>>::empty() { unimplemented!() }
+}
+impl Abstract {
+    #[verifier::external_body]
+    pub fn new(name: &String, outline: Polygon) -> (r: Self) ensures r.name@ == name@, r.outline == outline, r.ports@.len() == 0, r.blockages@ == Map::<LayerKey, Vec<Shape>>::empty() { unimplemented!() }
+}
+
 impl LefImporter {
+//@ fn layout21raw/src/lef.rs :: impl LefImporter :: fn import_pin
+//@   ret r
+//@   sub R6 /for port in &lefpin\.ports \{/ => for port in lefpin.ports.iter() {
+//@   sub R6 /for lef_layer_geom in &port\.layers \{/ => for lef_layer_geom in port.layers.iter() {
+//@   sub R6 /match abs_port\.shapes\.entry\(layerkey\) \{\s*Entry::Occupied\(mut e\) => e\.get_mut\(\)\.extend\(shapes\),\s*Entry::Vacant\(e\) => \{\s*e\.insert\(shapes\);\s*\}\s*\}/ => vp_entry_extend(&mut abs_port.shapes, layerkey, shapes);
+//@   spec
+//|     requires pin_dec_ok(*lefpin, old(self).dist_scale as int),
+//|         obeys_key_model::<LayerKey>(),
+//|     ensures final(self).dist_scale == old(self).dist_scale,
+//|         r is Ok ==> final(self).ctx@ == old(self).ctx@ && r->Ok_0.net@ == lefpin.name@
+//|             && exists|items: Seq<(LayerKey, Seq<Shape>)>| #[trigger] items_are(items, pin_geoms(lefpin.ports@), old(self).dist_scale as int) && lists(r->Ok_0.shapes@) == merged(items),
+//@   before /for port in lefpin\.ports\.iter\(\) \{/
+//|         let ghost mut items: Seq<(LayerKey, Seq<Shape>)> = Seq::empty();
+//@   loop 1 iter it
+//|             invariant self.dist_scale == old(self).dist_scale, self.ctx@ == old(self).ctx@, it.index@ <= lefpin.ports@.len(), abs_port.net@ == lefpin.name@, obeys_key_model::<LayerKey>(),
+//|                 pin_dec_ok(*lefpin, self.dist_scale as int),
+//|                 items_are(items, pin_geoms(lefpin.ports@.take(it.index@ as int)), self.dist_scale as int), lists(abs_port.shapes@) == merged(items),
+//@   before /for lef_layer_geom in port\.layers\.iter\(\) \{/
+//|             let ghost items0 = items;
+//@   loop 2 iter it2
+//|                 invariant self.dist_scale == old(self).dist_scale, self.ctx@ == old(self).ctx@, 0 <= it.index@ < lefpin.ports@.len(), it2.index@ <= port.layers@.len(), abs_port.net@ == lefpin.name@, obeys_key_model::<LayerKey>(),
+//|                     *port == lefpin.ports@[it.index@ as int],
+//|                     pin_dec_ok(*lefpin, self.dist_scale as int),
+//|                     items_are(items, pin_geoms(lefpin.ports@.take(it.index@ as int)) + port.layers@.take(it2.index@ as int), self.dist_scale as int), lists(abs_port.shapes@) == merged(items),
+//@   before /let \(layerkey, shapes\) = self\.import_layer_geometries\(lef_layer_geom\)\?;/
+//|                 proof { assert(port_dec_ok(lefpin.ports@[it.index@ as int], self.dist_scale as int)); assert(port.layers@[it2.index@ as int] == *lef_layer_geom); }
+//@   loopend 2
+//|                 proof {
+//|                     let item = (layerkey, shapes@);
+//|                     assert(lefpin.ports@[it.index@ as int].layers@[it2.index@ as int] == *lef_layer_geom);
+//|                     assert(items.push(item).drop_last() == items);
+//|                     items = items.push(item);
+//|                     assert(port.layers@.take(it2.index@ + 1) == port.layers@.take(it2.index@ as int).push(*lef_layer_geom));
+//|                     assert(pin_geoms(lefpin.ports@.take(it.index@ as int)) + port.layers@.take(it2.index@ + 1) == (pin_geoms(lefpin.ports@.take(it.index@ as int)) + port.layers@.take(it2.index@ as int)).push(*lef_layer_geom));
+//|                 }
+//@   loopend 1
+//|             proof {
+//|                 assert(port.layers@.take(port.layers@.len() as int) == port.layers@);
+//|                 assert(lefpin.ports@.take(it.index@ + 1).drop_last() == lefpin.ports@.take(it.index@ as int));
+//|             }
+//@   before /^        Ok\(abs_port\)$/
+//|         proof { assert(lefpin.ports@.take(lefpin.ports@.len() as int) == lefpin.ports@); }
+//@ end
+}
+/// port `p` is the image of LEF pin `l`: its name, and per layer the shapes of all its ports' geometries, in order
+pub open spec fn port_is(p: AbstractPort, l: lef21::LefPin, scale: int) -> bool {
+    p.net@ == l.name@ && exists|items: Seq<(LayerKey, Seq<Shape>)>| #[trigger] items_are(items, pin_geoms(l.ports@), scale) && lists(p.shapes@) == merged(items)
+}
+pub open spec fn macro_dec_ok(m: lef21::LefMacro, scale: int) -> bool {
+    &&& m.size is Some ==> pt_dec_ok(lef21::LefPoint { x: m.size->Some_0.0, y: m.size->Some_0.1 }, scale)
+    &&& forall|i: int| 0 <= i < m.pins@.len() ==> pin_dec_ok(#[trigger] m.pins@[i], scale)
+    &&& forall|i: int| 0 <= i < m.obs@.len() ==> geoms_dec_ok(#[trigger] m.obs@[i], scale)
+}
+impl LefImporter {
+    /// model of the block in import_abstract that looks up / creates the layer named "boundary" in the shared layer table (result unused)
+    #[verifier::external_body]
+    fn vp_boundary_layer(&mut self) -> (r: LayoutResult<LayerKey>) ensures final(self).dist_scale == old(self).dist_scale, final(self).ctx == old(self).ctx { unimplemented!() }
+//@ fn layout21raw/src/lef.rs :: impl LefImporter :: fn import_abstract
+//@   ret r
+//@   sub R5 /let _layer = \{[\s\S]*?\n            \};/ => let _layer = self.vp_boundary_layer()?;
+//@   sub R6 /for lefpin in &lefmacro\.pins \{/ => for lefpin in lefmacro.pins.iter() {
+//@   sub R6 /for lefobs in &lefmacro\.obs \{/ => for lefobs in lefmacro.obs.iter() {
+//@   sub R6 /match abs\.blockages\.entry\(layerkey\) \{\s*Entry::Occupied\(mut e\) => e\.get_mut\(\)\.extend\(shapes\),\s*Entry::Vacant\(e\) => \{\s*e\.insert\(shapes\);\s*\}\s*\}/ => vp_entry_extend(&mut abs.blockages, layerkey, shapes);
+//@   spec
+//|     requires macro_dec_ok(*lefmacro, old(self).dist_scale as int), obeys_key_model::<LayerKey>(),
+//|     ensures final(self).dist_scale == old(self).dist_scale,
+//|         r is Ok ==> ({
+//|             let scale = old(self).dist_scale as int; let a = r->Ok_0;
+//|             &&& final(self).ctx@ == old(self).ctx@ &&& lefmacro.size is Some
+//|             &&& { let sz = lef21::LefPoint { x: lefmacro.size->Some_0.0, y: lefmacro.size->Some_0.1 }; let c = pt_val(sz, scale);
+//|                   // the outline is the SIZE rectangle with its lower-left corner at the origin
+//|                   pt_ok(sz, scale) && a.outline.points@ == seq![Point { x: 0, y: 0 }, Point { x: c.x, y: 0 }, Point { x: c.x, y: c.y }, Point { x: 0, y: c.y }] }
+//|             &&& a.name@ == lefmacro.name@
+//|             // one port per pin, in order
+//|             &&& a.ports@.len() == lefmacro.pins@.len() &&& forall|i: int| 0 <= i < lefmacro.pins@.len() ==> port_is(#[trigger] a.ports@[i], lefmacro.pins@[i], scale)
+//|             // obstructions merged per layer, in order
+//|             &&& exists|items: Seq<(LayerKey, Seq<Shape>)>| #[trigger] items_are(items, lefmacro.obs@, scale) && lists(a.blockages@) == merged(items)
+//|         }),
+//@   loop 1 iter it
+//|             invariant self.dist_scale == old(self).dist_scale, self.ctx@ == old(self).ctx@.push(ErrorContext::Abstract), macro_dec_ok(*lefmacro, self.dist_scale as int), obeys_key_model::<LayerKey>(),
+//|                 abs.name@ == lefmacro.name@, abs.outline == outline, abs.blockages@ == Map::<LayerKey, Vec<Shape>>::empty(),
+//|                 abs.ports@.len() == it.index@, it.index@ <= lefmacro.pins@.len(),
+//|                 forall|i: int| 0 <= i < it.index@ ==> port_is(#[trigger] abs.ports@[i], lefmacro.pins@[i], self.dist_scale as int),
+//@   before /for lefobs in lefmacro\.obs\.iter\(\) \{/
+//|         let ghost mut items: Seq<(LayerKey, Seq<Shape>)> = Seq::empty();
+//|         proof { assert(lists(abs.blockages@) =~= merged(items)); }
+//@   loop 2 iter it2
+//|             invariant self.dist_scale == old(self).dist_scale, self.ctx@ == old(self).ctx@.push(ErrorContext::Abstract), macro_dec_ok(*lefmacro, self.dist_scale as int), obeys_key_model::<LayerKey>(),
+//|                 abs.name@ == lefmacro.name@, abs.outline == outline, abs.ports@.len() == lefmacro.pins@.len(), it2.index@ <= lefmacro.obs@.len(),
+//|                 forall|i: int| 0 <= i < lefmacro.pins@.len() ==> port_is(#[trigger] abs.ports@[i], lefmacro.pins@[i], self.dist_scale as int),
+//|                 items_are(items, lefmacro.obs@.take(it2.index@ as int), self.dist_scale as int), lists(abs.blockages@) == merged(items),
+//@   loopend 2
+//|             proof {
+//|                 let item = (layerkey, shapes@);
+//|                 assert(items.push(item).drop_last() == items);
+//|                 items = items.push(item);
+//|                 assert(lefmacro.obs@.take(it2.index@ + 1) == lefmacro.obs@.take(it2.index@ as int).push(*lefobs));
+//|             }
+//@   before /^        self\.ctx\.pop\(\);$/
+//|         proof { assert(lefmacro.obs@.take(lefmacro.obs@.len() as int) == lefmacro.obs@); }
+//@   before /^        Ok\(abs\)$/
+//|         proof { assert(self.ctx@ =~= old(self).ctx@); }
+//@ end
+}
+impl LefImporter {
+    /// model of LefImporter::import_layer (locks the shared layer table, looks the name up, creates the layer if absent): the name's key
+    #[verifier::external_body]
+    fn import_layer(&mut self, leflayer: &String) -> (r: LayoutResult<LayerKey>)
+        ensures final(self).dist_scale == old(self).dist_scale, final(self).ctx == old(self).ctx, r is Ok ==> r->Ok_0 == key_of(leflayer@),
+    { unimplemented!() }
+    /// model of `warn`: prints
+    #[verifier::external_body]
+    fn warn<M>(&self, msg: M) { }
+//@ fn layout21raw/src/lef.rs :: impl LefImporter :: fn import_shape
+//@   ret r
+//@   spec
+//|     requires shape_dec_ok(*lefshape, *layer, old(self).dist_scale as int),
+//|     ensures final(self).dist_scale == old(self).dist_scale, final(self).ctx == old(self).ctx,
+//|         r is Ok ==> shape_is(r->Ok_0, *lefshape, *layer, old(self).dist_scale as int),
+//@ end
+//@ fn layout21raw/src/lef.rs :: impl LefImporter :: fn import_geometry
+//@   ret r
+//@   spec
+//|     requires geom_dec_ok(*geom, *layer, old(self).dist_scale as int),
+//|     ensures final(self).dist_scale == old(self).dist_scale, final(self).ctx == old(self).ctx,
+//|         r is Ok ==> geom is Shape && shape_is(r->Ok_0, geom->Shape_0, *layer, old(self).dist_scale as int),
+//@ end
+//@ fn layout21raw/src/lef.rs :: impl LefImporter :: fn import_layer_geometries
+//@   ret r
+//@   sub R6 /for geom in &geoms\.geometries \{/ => for geom in geoms.geometries.iter() {
+//@   spec
+//|     requires geoms_dec_ok(*geoms, old(self).dist_scale as int),
+//|     ensures final(self).dist_scale == old(self).dist_scale,
+//|         r is Ok ==> final(self).ctx@ == old(self).ctx@ && geoms_supported(*geoms) && r->Ok_0.0 == key_of(geoms.layer_name@)
+//|             && shapes_are(r->Ok_0.1@, *geoms, geoms.geometries@.len() as int, old(self).dist_scale as int),
+//@   loop 1 iter it
+//|             invariant self.dist_scale == old(self).dist_scale, self.ctx@ == old(self).ctx@.push(ErrorContext::Geometry), geoms_dec_ok(*geoms, self.dist_scale as int),
+//|                 shapes_are(shapes@, *geoms, it.index@ as int, self.dist_scale as int), it.index@ <= geoms.geometries@.len(),
+//@   before /^        Ok\(\(layerkey, shapes\)\)$/
+//|         proof { assert(self.ctx@ =~= old(self).ctx@); }
+//@ end
     /// model of ErrorHelper::fail: always an error
     #[verifier::external_body]
     fn fail<T, M>(&self, msg: M) -> (r: LayoutResult<T>) ensures r is Err { Err(LayoutError { }) }
@@ -163,7 +421,7 @@ impl LefImporter {
 //@   sub R10 /lefdec \* lef21::LefDecimal::from\(self\.dist_scale\)/ => core::ops::Mul::mul(lefdec, lef21::LefDecimal::from(self.dist_scale))
 //@   spec
 //|     requires dec_ok(*lefdec, old(self).dist_scale as int),
-//|     ensures final(self).dist_scale == old(self).dist_scale,
+//|     ensures final(self).dist_scale == old(self).dist_scale, final(self).ctx == old(self).ctx,
 //|         match r {
 //|             Ok(v) => dist_ok(*lefdec, old(self).dist_scale as int) && v == dist_val(*lefdec, old(self).dist_scale as int),
 //|             Err(_) => !dist_ok(*lefdec, old(self).dist_scale as int),
@@ -175,7 +433,7 @@ impl LefImporter {
 //@   ret r
 //@   spec
 //|     requires pt_dec_ok(*pt, old(self).dist_scale as int),
-//|     ensures final(self).dist_scale == old(self).dist_scale,
+//|     ensures final(self).dist_scale == old(self).dist_scale, final(self).ctx == old(self).ctx,
 //|         match r {
 //|             Ok(p) => pt_ok(*pt, old(self).dist_scale as int) && p == pt_val(*pt, old(self).dist_scale as int),
 //|             Err(_) => !pt_ok(*pt, old(self).dist_scale as int),
@@ -186,7 +444,7 @@ impl LefImporter {
     #[verifier::external_body]
     fn import_point_vec(&mut self, pts: &Vec<lef21::LefPoint>) -> (r: LayoutResult<Vec<Point>>)
         requires forall|i: int| 0 <= i < pts@.len() ==> pt_dec_ok(#[trigger] pts@[i], old(self).dist_scale as int),
-        ensures final(self).dist_scale == old(self).dist_scale,
+        ensures final(self).dist_scale == old(self).dist_scale, final(self).ctx == old(self).ctx,
             match r {
                 Ok(v) => v@.len() == pts@.len() && forall|i: int| 0 <= i < pts@.len() ==> pt_ok(#[trigger] pts@[i], old(self).dist_scale as int) && v@[i] == pt_val(pts@[i], old(self).dist_scale as int),
                 Err(_) => exists|i: int| 0 <= i < pts@.len() && !pt_ok(#[trigger] pts@[i], old(self).dist_scale as int),
@@ -196,7 +454,7 @@ impl LefImporter {
 //@   ret r
 //@   spec
 //|     requires pt_dec_ok(*lefpoints.0, old(self).dist_scale as int), pt_dec_ok(*lefpoints.1, old(self).dist_scale as int),
-//|     ensures final(self).dist_scale == old(self).dist_scale,
+//|     ensures final(self).dist_scale == old(self).dist_scale, final(self).ctx == old(self).ctx,
 //|         match r {
 //|             Ok(s) => pt_ok(*lefpoints.0, old(self).dist_scale as int) && pt_ok(*lefpoints.1, old(self).dist_scale as int)
 //|                 && s == Shape::Rect(Rect { p0: pt_val(*lefpoints.0, old(self).dist_scale as int), p1: pt_val(*lefpoints.1, old(self).dist_scale as int) }),
@@ -207,7 +465,7 @@ impl LefImporter {
 //@   ret r
 //@   spec
 //|     requires forall|i: int| 0 <= i < lefpoints@.len() ==> pt_dec_ok(#[trigger] lefpoints@[i], old(self).dist_scale as int),
-//|     ensures final(self).dist_scale == old(self).dist_scale,
+//|     ensures final(self).dist_scale == old(self).dist_scale, final(self).ctx == old(self).ctx,
 //|         match r {
 //|             Ok(Shape::Polygon(p)) => p.points@.len() == lefpoints@.len()
 //|                 && forall|i: int| 0 <= i < lefpoints@.len() ==> pt_ok(#[trigger] lefpoints@[i], old(self).dist_scale as int) && p.points@[i] == pt_val(lefpoints@[i], old(self).dist_scale as int),
@@ -220,7 +478,7 @@ impl LefImporter {
 //@   spec
 //|     requires forall|i: int| 0 <= i < pts@.len() ==> pt_dec_ok(#[trigger] pts@[i], old(self).dist_scale as int),
 //|         layer.width is Some ==> dec_ok(layer.width->0, old(self).dist_scale as int),
-//|     ensures final(self).dist_scale == old(self).dist_scale,
+//|     ensures final(self).dist_scale == old(self).dist_scale, final(self).ctx == old(self).ctx,
 //|         match r {
 //|             Ok(Shape::Path(p)) => p.points@.len() == pts@.len() && layer.width is Some
 //|                 && dist_ok(layer.width->0, old(self).dist_scale as int) && p.width as int == dist_val(layer.width->0, old(self).dist_scale as int)
